@@ -839,6 +839,13 @@ func toBool(val interface{}) (bool, error) {
 
 func toString(val interface{}) (string, error) {
 	rv := reflect.ValueOf(val)
+	switch rv.Kind() {
+	case reflect.Map, reflect.Slice, reflect.Array, reflect.Struct, reflect.Chan, reflect.Func, reflect.Ptr, reflect.UnsafePointer:
+		// not one value: printing it as text would store a Go rendering of the structure
+		if _, isStringer := val.(fmt.Stringer); !isStringer {
+			return "", fmt.Errorf("cannot coerse '%T' to string", val)
+		}
+	}
 	if rv.Kind() == reflect.Float64 {
 		// wrong format, truncating decimals as most likely mistake but
 		// will not please everyone.  Get input in correct format by placing
